@@ -206,6 +206,17 @@ def run(rd, emit, log, enum_values, ti_default):
     if rm is None: log.append('C17: file removal in DeleteObjectHelper not recognised')
     body += '(* true = DeleteObjectHelper (the recursive part) removes the file of each _api object; false = only DeleteObject (top level) does *)\n'
     body += 'Definition f_cw_delete_helper_removes_file : option bool := %s.\n' % ('Some ' + rm if rm else 'None')
+    # ---- "created at runtime": the literal DeleteObject (refusal) and DeleteObjectHelper (file removal) compare
+    #      object->GetPackage() with - by EQUALITY of the whole string
+    lit = None
+    if b and b2:
+        m2 = re.search(r'if\s*\(\s*object->GetPackage\(\)\s*!=\s*"((?:[^"\\]|\\.)*)"\s*\)\s*\{?[^}]{0,200}not created using the API', b2, re.S)
+        m1 = re.search(r'if\s*\(\s*object->GetPackage\(\)\s*==\s*"((?:[^"\\]|\\.)*)"\s*\)\s*\{?\s*Utility::Remove\s*\(', b)
+        if m1 and m2 and m1.group(1) == m2.group(1):
+            lit = c_unescape(m1.group(1))
+    if lit is None: log.append('C17: package comparison of DeleteObject / DeleteObjectHelper not recognised')
+    body += '(* the package name whose objects DeleteObject does not refuse and whose files DeleteObjectHelper removes: `GetPackage() == <literal>` (whole-string equality) in both *)\n'
+    body += 'Definition f_cw_delete_pkg_equals : option (list N) := %s.\n' % ('Some (' + blist(lit) + ')%N' if lit is not None else 'None')
     # ---- the five host!name | host!service!name composers: are more than three parts / an empty middle part rejected?
     ex3 = []
     for fn, cls in (('notification', 'Notification'), ('dependency', 'Dependency'), ('scheduleddowntime', 'ScheduledDowntime'),
